@@ -51,6 +51,9 @@ Definition set_prereq (p : patch) (x : list N) : patch :=
 Definition set_modes (p : patch) (om nm : N) : patch :=
   mkPatch (pfmt p) (poper p) (index_path p) (prereq p) (old_path p) (new_path p) (old_time p) (new_time p) om nm (hunks p).
 
+Definition fmt_unknown_or (p : patch) (f : format) : bool :=
+  format_eqb (pfmt p) FUnknown || format_eqb (pfmt p) f.
+
 Definition opt_or {A} (o : option A) (d : A) : A := match o with Some x => x | None => d end.
 
 (* LineParser::parse_git_extended_info: Some p' = returned true with the patch updated;
@@ -92,9 +95,6 @@ Definition parse_git_extended_info (p : patch) (strip : Z) (line : list N) : res
   | None => Ok (false, p)
   end end end end end end end end end end.
 
-Definition fmt_unknown_or (p : patch) (f : format) : bool :=
-  format_eqb (pfmt p) FUnknown || format_eqb (pfmt p) f.
-
 (* one iteration of the while (get_line(line)) loop of parse_patch_header;
    inl st = continue scanning, inr st = break *)
 Definition header_step (strip : Z) (st : hstate) (line : list N) : res (hstate + hstate) :=
@@ -104,14 +104,17 @@ Definition header_step (strip : Z) (st : hstate) (line : list N) : res (hstate +
   (* state after "++lines; this_line_looks_like = Unknown" *)
   let st0 := mkHS p LKUnknown lines (h_git st) (h_body st) (h_hunk st) (h_first st) in
   let with_patch (q : patch) := mkHS q LKUnknown lines (h_git st) (h_body st) (h_hunk st) (h_first st) in
+  let first_u := looks_eqb last LKUnified && fmt_unknown_or p FUnified &&
+                 (starts_with line [43%N] || starts_with line [45%N] || starts_with line [32%N]) in
   let star := if negb (looks_eqb last LKContext) then consume_str (bs "*** ") line else None in
-  let old_line := match star with Some r => Some r | None => consume_str (bs "+++ ") line end in
+  let old_line := if first_u then None
+                  else match star with Some r => Some r | None => consume_str (bs "+++ ") line end in
   match old_line with
   | Some r =>
       do x <- parse_file_line strip r;
       Ok (inl (with_patch (set_paths p (fst x) (new_path p) (opt_or (snd x) (old_time p)) (new_time p))))
   | None =>
-  match consume_str (bs "--- ") line with
+  match (if first_u then None else consume_str (bs "--- ") line) with
   | Some r =>
       do x <- parse_file_line strip r;
       Ok (inl (with_patch (set_paths p (old_path p) (fst x) (old_time p) (opt_or (snd x) (new_time p)))))
